@@ -5,79 +5,41 @@
  * Bounds and intervals (B, I, b_*, i_ok, i_bot, i_top, i_has, ...) are the vocabulary of units/interval/spec.h; z_number
  * is the integer model models/zmodel.h.
  * D = { f0 = m_state (BOT = 0, FINITE = 1, TOP = 2), f1 = m_list : std::vector<interval> = three pointers (begin, end, end
- * of storage) }.  The vector is the REAL libstdc++ std::vector; a value is described through the element array
- * begin[0 .. n-1], n = end - begin.
+ * of storage) }.  A value is described through the element array begin[0 .. n-1], n = end - begin.
+ * V = std::vector<interval> itself (the lists handed to the private constructor dis_interval(list, normalize)).
  *
  * BOUND: every statement about a dis_interval is made for values with at most DMAX disjuncts (the spec functions are
- * loops of DMAX iterations); the harnesses build operands with at most NIN disjuncts. */
+ * loops of DMAX iterations), every statement about a list for at most LMAX elements; the harnesses build operands with
+ * at most NIN disjuncts.
+ *
+ * This file is included TWICE by contracts.c: once as it is (names used in contract clauses) and once through hspec.h
+ * with every function renamed h<name> (names used in harness bodies): dfcc instruments every function reachable from the
+ * harness body with an extra write-set parameter, and a function that is also called from a contract clause then gets
+ * too few arguments there (cbmc: "not enough arguments", the check never finishes). */
 #ifndef DI_SPEC_H
 #define DI_SPEC_H
 #include "../interval/spec.h"
 typedef struct S_class_crab__domains__dis_interval D;
+typedef struct S_class_std__vector V;
 #ifndef NIN
 #define NIN 2                        /* disjuncts per operand built by the harnesses */
 #endif
 #ifndef DMAX
 #define DMAX 4                       /* disjuncts a result may have (2 x 2 pairs, 2 + 2 for join) */
 #endif
+#ifndef LMAX
+#define LMAX 4                       /* elements of a list handed to dis_interval(list, normalize) */
+#endif
 #define D_BOT 0u
 #define D_FIN 1u
 #define D_TOP 2u
+#define DZ (((i128)1) << 98)         /* largest magnitude of a finite bound anywhere in this unit (number model: 2^100) */
 #define D_BEGIN(d) ((d)->f1.f0.f0.f0.f0)
 #define D_END(d) ((d)->f1.f0.f0.f0.f1)
 #define D_CAP(d) ((d)->f1.f0.f0.f0.f2)
 #define D_E(d, i) (D_BEGIN(d)[i])
-static inline long d_n(const D *d){ return (long)(D_END(d) - D_BEGIN(d)); }
-/* a lies entirely on the left of b with at least one integer in between: a.ub + 1 < b.lb */
-static inline bool i_gap(I a, I b){ return !b_inf(a.f1) && !b_inf(b.f0) && bval(a.f1) + 1 < bval(b.f0); }
-
-/* REPRESENTATION INVARIANT (what normalize() establishes: "non-overlapping sequence of intervals"):
- *  - m_state is BOT, FINITE or TOP; BOT and TOP come with an empty list;
- *  - FINITE: the vector is well formed with 1 <= n <= max elements; every element is a well-formed interval that is
- *    neither bottom nor top; the elements are sorted, pairwise disjoint and NOT adjacent (a.ub + 1 < b.lb for neighbours:
- *    [0,2] | [3,4] is written [0,4]). */
-static inline bool d_okn(const D *d, long max, i128 z){
-  if (d->f0 > 2) return false;
-  if (d->f0 != D_FIN) return D_BEGIN(d) == D_END(d);
-  if (D_BEGIN(d) == 0) return false;
-  long n = d_n(d);
-  if (n < 1 || n > max || D_CAP(d) < D_END(d)) return false;
-  bool ok = true;
-  for (long i = 0; i < DMAX; i++)
-    if (i < n) ok = ok && i_okz(D_E(d, i), z) && !i_bot(D_E(d, i)) && !i_top(D_E(d, i)) && (i == 0 || i_gap(D_E(d, i - 1), D_E(d, i)));
-  return ok; }
-static inline bool d_ok_in(const D *d){ return d_okn(d, NIN, ZB); }          /* operands */
-/* concretisation: membership in some disjunct */
-static inline bool d_has(const D *d, i128 v){
-  if (d->f0 == D_TOP) return true;
-  if (d->f0 != D_FIN) return false;
-  long n = d_n(d); bool m = false;
-  for (long i = 0; i < DMAX; i++) if (i < n) m = m || i_has(D_E(d, i), v);
-  return m; }
-static inline bool d_bot(const D *d){ return d->f0 == D_BOT; }
-static inline bool d_top(const D *d){ return d->f0 == D_TOP; }
-/* syntactic equality of normalised values */
-static inline bool d_eq(const D *a, const D *b){
-  if (a->f0 != b->f0) return false;
-  if (a->f0 != D_FIN) return true;
-  long n = d_n(a); if (n != d_n(b)) return false;
-  bool e = true;
-  for (long i = 0; i < DMAX; i++) if (i < n) e = e && i_eq(D_E(a, i), D_E(b, i));
-  return e; }
-/* inclusion of concretisations, decided on normalised values: every disjunct of a lies within one disjunct of b */
-static inline bool d_leq(const D *a, const D *b){
-  if (a->f0 == D_BOT || b->f0 == D_TOP) return true;
-  if (b->f0 == D_BOT || a->f0 == D_TOP) return false;
-  long n = d_n(a), m = d_n(b); bool all = true;
-  for (long i = 0; i < DMAX; i++) if (i < n) {
-    bool some = false;
-    for (long j = 0; j < DMAX; j++) if (j < m) some = some || i_leq(D_E(a, i), D_E(b, j));
-    all = all && some; }
-  return all; }
-/* hull: least interval containing the value */
-static inline bool d_hull_is(const D *d, I h){
-  if (d->f0 == D_BOT) return i_bot(h);
-  if (d->f0 == D_TOP) return i_top(h);
-  long n = d_n(d);
-  return !i_bot(h) && b_eq(h.f0, D_E(d, 0).f0) && b_eq(h.f1, D_E(d, n - 1).f1); }
+#define V_BEGIN(v) ((v)->f0.f0.f0.f0)
+#define V_END(v) ((v)->f0.f0.f0.f1)
+#define V_CAP(v) ((v)->f0.f0.f0.f2)
+#include "spec_funs.h"
 #endif
